@@ -257,7 +257,9 @@ def main():
         # ---------------- encoder direction
         try:
             app = BaseHandler(G.build(desc, backend))
-            res = Request.blank("/.dods?" + ce).get_response(app)
+            # the block size of the streaming encoder is a deployment setting (environ key pydap.buffer_size)
+            env = {"pydap.buffer_size": rng.choice([1, 2, 3, 5, 7, 8, 13, 64])} if rng.random() < 0.4 else {}
+            res = Request.blank("/.dods?" + ce, environ=env).get_response(app)
             body = res.body
             ddsres = Request.blank("/.dds?" + ce).get_response(app).body
             if res.status_int != 200 or b"\nData:\n" not in body:
